@@ -609,7 +609,9 @@ Definition handle_null_request (c : cfg) (st : sstate) (now : N) (rnd : N) (q : 
     let dl := u_downenc (getu st i) in
     let mfs := chr unpacked 1 * 256 + chr unpacked 2 in
     if mfs <? 2 then (st, [mk_answer q s_BADFRAG dl])
-    else (upd st i (fun u => u <| u_fragsize := mfs |> <| u_locked := true |>),
+    else (upd st i (fun u => u <| u_cache := map (fun e => {| ce_name := ce_name e; ce_type := ce_type e; ce_id := 0;
+                                                                ce_answer := ce_answer e; ce_len := 0 |}) (u_cache u) |>
+                                 <| u_fragsize := mfs |> <| u_locked := true |>),
           [mk_answer q [chr unpacked 1; chr unpacked 2] dl])
   else if is_letter c0 112 then                                     (* P *)
     if h_id q =? 0 then (st, []) else
